@@ -93,6 +93,11 @@ checks = {
    technique="same controlled-scheduler rig as C07: exhaustive enumeration of batch sequences (author x target x shape) with the Points/EdgePoints callbacks of the instrumented client as observation, plus a deviation-bounded exploration of delivery orders",
    text="All sequences of 2 (thorough 3) batches over 23 (4 authors x 4 targets, two-point batches, an edge-point batch); foreign changes in the subtree are told exactly once, in acceptance order, with identical points; own changes never; folding what was told (plus own writes) into the start configuration equals the store's node.",
    note="Batches with empty origin aimed at a descendant are unclassified by the statement and unconstrained."),
+ "C02": dict(
+   category="model_checking", design_ref="DESIGN.md §2.3, §3 C02",
+   technique="stateless model checking with the controlled scheduler over TWO buses: two real stores (downstream, upstream) linked by the real client.SyncClient in one testing/synctest bubble per execution; exhaustive enumeration of operation histories (writes, creations, deletions, undeletions on either side, outages, periods) and, deviation-bounded, delivery orders; differential oracle downstream subtree = upstream subtree plus newest-accepted-write reference",
+   text="After an initial catch-up, all histories of 3 (thorough 4) operations over 15 are run, then the link is brought up and 5 sync periods pass; the device subtrees read through nodes.* (deleted included) must be identical in node set, types, every point (all fields but origin) and edge points, and hold the newest accepted write per identity.",
+   note="Outage = sync disabled/re-enabled (clean disconnect); abrupt link loss with in-flight messages and upstream restart are not modelled. Known findings: tombstones and writes to deleted nodes made during an outage (6 keys)."),
 }
 pending_reason = "check not built yet in this round (planned in DESIGN.md §3); not claimed until its harness exists"
 m = {
